@@ -98,7 +98,7 @@ TESTED_NOT_PROVED = [
     "(oracle on every option / helper / list / history case)",
     "isinstance(order, tuple) in find_unequal_order_edges: ITS graphs whose order is a list are outside the model (the library never builds them)",
 ]
-LEVEL_TEXT = ("Machine-checked proof (Coq, 76 theorems, all closed under the global context) over an executable model of get_rc and RadiusExpand: on every "
+LEVEL_TEXT = ("Machine-checked proof (Coq, 80 theorems, all closed under the global context) over an executable model of get_rc and RadiusExpand: on every "
               "well-formed ITS graph whose standard_order is the order difference the centre contains a bond iff its two orders differ or both atoms "
               "are hydrogens (for ignore_aromaticity ITS graphs: iff the orders differ by at least 1, with a witness that 'differs' alone fails; "
               "stated also on the two sides: for the ITS of a reactant graph G and a product graph H two atoms are joined in the centre iff they are "
@@ -297,6 +297,10 @@ def _s_query(I, q):
     if q[0] == "hk":
         from synkit.Graph.Context.hier_context import HierContext
         return HierContext.extract_k(I, n_knn=q[1])
+    if q[0] == "rck":                                      # the centre of a context (theorem 35c)
+        return get_rc(RadiusExpand.extract_k(I, q[1]))
+    if q[0] == "kk":                                       # the radius-q[1] context of the radius-q[2] context (theorem 35d)
+        return RadiusExpand.extract_k(RadiusExpand.extract_k(I, q[2]), q[1])
     raise AssertionError(q)
 
 
@@ -320,6 +324,10 @@ def coq_S(case):
                 ts.append("tsits (get_rc_S K_default false false %s)" % lits[w])
             elif q[0] == "rcx":
                 ts.append("tsits (get_rc_S %s %s %s %s)" % (X.coq_keys(q[1]), E.cb(q[2]), E.cb(q[3]), lits[w]))
+            elif q[0] == "rck":
+                ts.append("tsits (get_rc_S K_default false false (extract_k_S %s %d%%nat))" % (lits[w], q[1]))
+            elif q[0] == "kk":
+                ts.append("tsits (extract_k_S (extract_k_S %s %d%%nat) %d%%nat)" % (lits[w], q[2], q[1]))
             else:
                 ts.append("tsits (extract_k_S %s %d%%nat)" % (lits[w], q[1]))
         return "L [%s]" % "; ".join(ts)
@@ -358,6 +366,10 @@ def oracle_S(case):
                 fails.append(dict(clause="history-step-fresh", detail="step %d %r on the %s ITS differs from the same call on a freshly built ITS; earlier steps %r" % (i, q, w, case["shist"][:i])))
                 break
             fails += _labels_clause("step %d %r on the %s ITS" % (i, q, w), got, objs[w])
+            if q[0] == "rck" and not HS.graph_eq(got, get_rc(_build_S(case, w))):
+                fails.append(dict(clause="context-carries-centre", detail="step %d: the centre of the radius-%d context of the %s ITS is not the centre of the ITS" % (i, q[1], w)))
+            if q[0] == "kk" and q[1] <= q[2] and not HS.graph_eq(got, RadiusExpand.extract_k(_build_S(case, w), q[1])):
+                fails.append(dict(clause="contexts-nest", detail="step %d: the radius-%d context of the radius-%d context of the %s ITS is not its radius-%d context" % (i, q[1], q[2], w, q[1])))
             if not HS.graph_eq(objs[w], _build_S(case, w)):
                 fails.append(dict(clause="history-its-changed", detail="step %d %r changed the %s ITS" % (i, q, w)))
             if fails:
@@ -1846,8 +1858,9 @@ def gen_store(rng, tier):
         for _ in range(rng.randint(3, 5)):
             w = rng.choice(("T", "F"))
             z = rng.random()
-            steps.append([w, ["rc"] if z < 0.35 else (["rcx", list(rng.choice(X.KEY_CHOICES)), rng.random() < 0.5, rng.random() < 0.5] if z < 0.6
-                              else [rng.choice(("k", "ctx", "hk")), rng.choice((0, 1, 2))])])
+            steps.append([w, ["rc"] if z < 0.3 else (["rcx", list(rng.choice(X.KEY_CHOICES)), rng.random() < 0.5, rng.random() < 0.5] if z < 0.5
+                              else ([rng.choice(("k", "ctx", "hk")), rng.choice((0, 1, 2))] if z < 0.75
+                                    else (["rck", rng.choice((1, 2, 3))] if z < 0.88 else ["kk", rng.choice((1, 2)), rng.choice((2, 3))])))])
         cases.append(dict(kind="s-hist", G=c["G"], H=c["H"], sopts=so, shist=steps))
     # label shapes a caller may have that the model does not cover: oracle only ('labels copied unchanged')
     base = {"nodes": [[1, its_node(1, "C")], [2, its_node(2, "O")], [3, its_node(3, "C")]], "edges": [[1, 2, its_edge(1, 2)], [2, 3, its_edge(1, 1)]]}
